@@ -95,6 +95,38 @@ def multipart_bodies(L, tier):
     out.append((f"nodelim:cr*{2 * L}", None, b"\r" * (2 * L)))
     out.append((f"nodelim:lf*{2 * L}", None, b"\n" * (2 * L)))
     out.append((f"nodelim:headers-never-end*{2 * L}", None, b"\r\n--bnd\r\nX: " + b"h" * (2 * L)))
+    out.extend(state_bodies())
+    return out
+
+
+STATE_M = (64, 96)      # max_form_memory_size values for the "state:" families (large enough for the header block)
+
+
+def state_bodies():
+    """Bodies (independent of L) that make the decoder buffer grow in every decoder state *after* the header
+    block, judged under max_form_memory_size in STATE_M:
+    a FALSE delimiter in part data ('\\r\\n--bndx': boundary text followed by a non-blank) followed by a long run
+    without a line break - while '--bnd' is in the buffer and no real delimiter matches, _parse_data can only
+    release data up to the last line break, so the run accumulates (state DATA; file parts have no field_size
+    check); a long run right after the headers (DATA_START -> DATA); a long epilogue (EPILOGUE)."""
+    out = []
+
+    def add(descr, parts, **kw):
+        for _k, _n, _f, _c, p in parts:
+            if not c01.well_formed_payload(p, B, kw.get("nl", b"\r\n")):
+                raise core.Broken(f"C10 body generator made an ill-formed payload: {descr}")
+        out.append(("state:" + descr, tuple(parts), c01.build_body(parts, B, **kw)))
+
+    fd = b"head\r\n--bndx"
+    for run in (20, 60, 100, 150):
+        add(f"falsedelim-file*{run}", [fil(b"f", fd + b"A" * run, None)])
+    for run in (20, 100):
+        add(f"falsedelim-field*{run}", [fld(b"a", fd + b"A" * run)])
+    add("falsedelim-lf-file*100", [fil(b"f", b"head\n--bndx" + b"A" * 100, None)])
+    add("falsedelim-twice-file*100", [fil(b"f", fd + b"A" * 50 + b"\r\n--bnd-" + b"A" * 100, None)])
+    add("falsedelim-file-then-field", [fil(b"f", fd + b"A" * 100, None), fld(b"a", b"v")])
+    add("longrun-file*150", [fil(b"f", b"A" * 150, None)])
+    add("epilogue*100", [fld(b"a", b"v")], epi=b"e" * 100)
     return out
 
 
@@ -232,9 +264,32 @@ def judge_decoder(descr, parts, mfms, max_parts, term):
 
 # ------------------------------------------------------------------ P: MultiPartParser
 
+class SpyDecoder(mp.MultipartDecoder):
+    """The real decoder, observed: largest len(buffer) seen right after a receive_data that returned
+    (property anchor 'observe_at: len(decoder.buffer) after each receive_data').  MultiPartParser is made to
+    instantiate it, so the parser and form levels see what the decoder level's monitor sees."""
+
+    peak = 0
+
+    def receive_data(self, data):
+        super().receive_data(data)
+        n = len(self.buffer)
+        if n > SpyDecoder.peak:
+            SpyDecoder.peak = n
+
+
+import werkzeug.formparser as _fp  # noqa: E402
+
+if _fp.MultipartDecoder is not mp.MultipartDecoder and not issubclass(_fp.MultipartDecoder, mp.MultipartDecoder):
+    raise core.Broken("werkzeug.formparser no longer uses sansio.multipart.MultipartDecoder")
+_fp.MultipartDecoder = SpyDecoder
+
+
 def parse_with(body, bs, mfms, mparts, dev):
     src = c01.Src(body, dev)
     p = MultiPartParser(max_form_memory_size=mfms, max_form_parts=mparts, buffer_size=bs)
+    SpyDecoder.peak = 0
+    src.peak = lambda: SpyDecoder.peak
     E4.arm(CPU_GUARD)
     try:
         form, files = p.parse(src, B, len(body))
@@ -251,7 +306,9 @@ def parse_with(body, bs, mfms, mparts, dev):
     return (f, fl), src
 
 
-def judge_parser(parts, mfms, mparts, got):
+def judge_parser(parts, mfms, mparts, got, peak=0):
+    if mfms is not None and peak > mfms:
+        return "decoder-buffer-exceeds-max_form_memory_size"
     if parts is None:
         if isinstance(got, tuple):
             return "undelimited-input-parsed-successfully"
@@ -332,15 +389,26 @@ def url_bodies(L):
     return out
 
 
+def declared_length(with_cl, n):
+    """with_cl: True (truthful) | False (absent) | ('lie', k): the header says k although the body has n bytes."""
+    if with_cl is True:
+        return n
+    if with_cl is False or with_cl is None:
+        return None
+    return int(with_cl[1])
+
+
 def run_form(cfg, ch):
     """cfg = (ctype, body, mfms, mparts, mcl, with_cl, terminated, ri, via)"""
     ctype, body, mfms, mparts, mcl, with_cl, terminated, ri, via = cfg
     inp = (InRI if ri else In)(body, ch)
     environ = {"REQUEST_METHOD": "POST", "wsgi.input": inp, "CONTENT_TYPE": ctype}
-    if with_cl:
-        environ["CONTENT_LENGTH"] = str(len(body))
+    d = declared_length(with_cl, len(body))
+    if d is not None:
+        environ["CONTENT_LENGTH"] = str(d)
     if terminated:
         environ["wsgi.input_terminated"] = True
+    SpyDecoder.peak = 0
     E4.arm(CPU_GUARD)
     try:
         if via == "request":
@@ -369,12 +437,16 @@ def run_form(cfg, ch):
 def judge_form(cfg, truth, got, inp):
     """truth = (expected (fields, files), number of parts or None for urlencoded, biggest field)."""
     ctype, body, mfms, mparts, mcl, with_cl, terminated, ri, via = cfg
-    exp, np_, big = truth
+    exp, np_, big = truth[:3]
     n = len(body)
     tag = "success" if isinstance(got, tuple) else got
     if got == "HANG" or (isinstance(got, str) and got.startswith("EXC")):
         return "form-parsing-raised:" + got
-    if with_cl and mcl is not None and n > mcl:
+    declared = declared_length(with_cl, n)
+    lie = declared is not None and declared != n
+    if mfms is not None and SpyDecoder.peak > mfms and ctype.startswith("multipart/"):
+        return "decoder-buffer-exceeds-max_form_memory_size"
+    if declared is not None and mcl is not None and declared > mcl:
         if got != "RETL":
             return "declared-length-over-max_content_length-not-refused:" + tag
         if inp.pos or inp.calls:
@@ -382,7 +454,11 @@ def judge_form(cfg, truth, got, inp):
         return None
     if terminated and mcl is not None and inp.pos > mcl:
         return "more-than-max_content_length-taken-from-terminated-stream"
-    visible = terminated or with_cl
+    if lie:
+        # only generated for: terminated stream that delivers more than max_content_length although the
+        # declared length is within it -> must be refused while reading
+        return None if got == "RETL" else "terminated-stream-longer-than-max_content_length-not-refused:declared-length-lies"
+    visible = terminated or declared is not None
     if not visible:
         # no usable length on a server that does not terminate its input: nothing may be read
         if inp.pos or inp.calls:
@@ -395,7 +471,7 @@ def judge_form(cfg, truth, got, inp):
             return "RETL-without-any-limit"
         return None
     # parsing "succeeded"
-    if terminated and not with_cl and mcl is not None and n > mcl:
+    if terminated and declared is None and mcl is not None and n > mcl:
         return "terminated-stream-longer-than-max_content_length-not-refused"
     if mfms is not None and big > mfms:
         return "field-larger-than-max_form_memory_size-not-refused"
@@ -443,8 +519,15 @@ def units(tier):
             n = len(body)
             np_ = nparts(parts) if parts is not None else 1
             tiny = descr.startswith("tiny")
-            if tiny and L != P["Ls"][0]:
+            if (tiny or descr.startswith("state:")) and L != P["Ls"][0]:
                 continue                      # these bodies do not depend on L
+            if descr.startswith("state:"):
+                for mfms in STATE_M:
+                    us.append(("D", L, bi, mfms, None))
+                    us.append(("P", L, bi, mfms))
+                if tier == "thorough":
+                    us.append(("D", L, bi, n - 1, None))
+                continue
             if L in P["Ls_D"]:
                 for mfms in mfms_values(L, n, tier, tiny):
                     for max_parts in max_parts_values(np_, tier, tiny):
@@ -470,6 +553,10 @@ def form_bodies(L):
             continue
         if descr.startswith(("field:x*", "tiny*3", "tiny*5", "file:y", "two-fields", "field:crlf")):
             out.append((descr, "multipart/form-data; boundary=bnd", body, (exp_form(parts), nparts(parts), biggest_field(parts))))
+        if L == 16 and descr in ("state:falsedelim-file*100", "state:falsedelim-field*100", "state:longrun-file*150"):
+            # truth[3]: extra max_form_memory_size values (large enough for the header block)
+            out.append((descr, "multipart/form-data; boundary=bnd", body,
+                        (exp_form(parts), nparts(parts), biggest_field(parts), STATE_M)))
     for descr, body, items, big in url_bodies(L):
         out.append((descr, "application/x-www-form-urlencoded", body, ((tuple(items), ()), None, big)))
     return out
@@ -523,7 +610,7 @@ def run_unit(unit, R, tier):
                     tag = "ok" if isinstance(got, tuple) else got
                     R.use("P:" + tag.split(":")[0])
                     R.outcome(("P", tag))
-                    sig = judge_parser(parts, mfms, max_parts, got)
+                    sig = judge_parser(parts, mfms, max_parts, got, SpyDecoder.peak)
                     if sig:
                         R.violation("P:" + sig, {"kind": "P", "L": L, "descr": descr, "body": body, "mfms": mfms,
                                                  "max_parts": max_parts, "buffer_size": bs, "dev": {}, "sig": sig})
@@ -536,7 +623,7 @@ def run_unit(unit, R, tier):
                                 R.count("executions")
                                 R.count("parser_runs")
                                 R.count("short_read_runs")
-                                sig = judge_parser(parts, mfms, max_parts, got2)
+                                sig = judge_parser(parts, mfms, max_parts, got2, SpyDecoder.peak)
                                 if sig:
                                     R.violation("P:short-read:" + sig,
                                                 {"kind": "P", "L": L, "descr": descr, "body": body, "mfms": mfms,
@@ -550,13 +637,22 @@ def run_unit(unit, R, tier):
         big = truth[2]
         st = E4.Stats()
         In.all_lengths = P["all_lengths"]
-        mfms_vals = list(dict.fromkeys([None, max(big - 1, 0), big, 10 * n]))
+        mfms_vals = list(dict.fromkeys([None, max(big - 1, 0), big, 10 * n] + list(truth[3] if len(truth) > 3 else ())))
+        cl_modes = [True, False]
+        lies = []
+        if mcl is not None and n > mcl:
+            # the declared length lies: within the maximum, but the (terminated) stream delivers more
+            lies = [("lie", k) for k in dict.fromkeys([0, 1, max(mcl - 1, 0), mcl])]
         mparts_vals = [None] if np_ is None else list(dict.fromkeys([None, max(np_ - 1, 0), np_, np_ + 1]))
         R.use("F:" + ("url" if np_ is None else "multipart"), "F:mcl-" + mcl_kind)
         for mfms in mfms_vals:
             for mparts in mparts_vals:
-                for with_cl in (True, False):
+                for with_cl in cl_modes + lies:
                     for terminated in (False, True):
+                        if with_cl not in (True, False) and not terminated:
+                            continue          # a lying length on a non-terminated stream is C09's space
+                        if with_cl not in (True, False):
+                            R.use("F:declared-length-lies")
                         for ri in (False, True):
                             for via in ("request", "parse_form_data"):
                                 cfg = (ctype, body, mfms, mparts, mcl, with_cl, terminated, ri, via)
@@ -588,7 +684,7 @@ def run_unit(unit, R, tier):
 def finalize(R, tier):
     need = {"family:field", "family:file", "family:tiny", "family:preamble", "family:bigheader", "family:nodelim",
             "family:two-fields", "D:ok", "D:RETL", "D:EXC", "D:receive-RETL", "P:ok", "P:RETL", "P:EXC",
-            "F:ok", "F:RETL", "F:url", "F:multipart", "F:mcl-none", "F:mcl-small", "F:mcl-exact", "F:mcl-large"}
+            "F:ok", "F:RETL", "F:url", "F:multipart", "F:declared-length-lies", "family:state", "F:mcl-none", "F:mcl-small", "F:mcl-exact", "F:mcl-large"}
     missing = need - R.used
     if missing:
         raise core.Broken(f"vacuity: never exercised {sorted(missing)}")
@@ -638,24 +734,27 @@ def replay(rec):
             for d, p, b in multipart_bodies(L, "thorough"):
                 if b == rec["body"]:
                     parts = p
-        sig = judge_parser(parts, rec["mfms"], rec["max_parts"], got) if parts != "?" else None
+        sig = judge_parser(parts, rec["mfms"], rec["max_parts"], got, SpyDecoder.peak) if parts != "?" else None
         text = (f"MultiPartParser(max_form_memory_size={rec['mfms']}, max_form_parts={rec['max_parts']}, "
                 f"buffer_size={rec['buffer_size']}).parse(body) short_reads={dev}\nbody ({rec['descr']}) = "
-                f"{rec['body']!r}\nresult = {core.show(got)}\nviolation = {sig}")
+                f"{rec['body']!r}\nlargest decoder buffer after a receive_data = {SpyDecoder.peak}\n"
+                f"result = {core.show(got)}\nviolation = {sig}")
         return sig == rec["sig"], text
     if k == "F":
         cfg = tuple(rec["cfg"])
         truth = rec["truth"]
         truth = (_tup(truth[0]), truth[1], truth[2])
+        cfg = cfg[:5] + (cfg[5] if cfg[5] in (True, False) else tuple(cfg[5]),) + cfg[6:]
         ch = E4.Chooser(tuple(rec["choices"]))
         In.all_lengths = bool(rec.get("all_lengths"))
         got, inp = run_form(cfg, ch)
         sig = judge_form(cfg, truth, got, inp)
         ctype, body, mfms, mparts, mcl, with_cl, terminated, ri, via = cfg
-        text = (f"{via}: CONTENT_TYPE={ctype!r} CONTENT_LENGTH={'present' if with_cl else 'absent'} "
+        text = (f"{via}: CONTENT_TYPE={ctype!r} CONTENT_LENGTH={declared_length(with_cl, len(body))!r} (body has {len(body)} bytes) "
                 f"wsgi.input_terminated={terminated} max_form_memory_size={mfms} max_form_parts={mparts} "
                 f"max_content_length={mcl} input.readinto={ri}\nbody = {body!r}\n"
                 f"input calls (asked, answered) = {inp.calls}\nbytes taken from input = {inp.pos}\n"
+                f"largest decoder buffer after a receive_data = {SpyDecoder.peak}\n"
                 f"result = {core.show(got)}\nunlimited result = {core.show(truth[0])}\nviolation = {sig}")
         return sig == rec["sig"], text
     return True, rec.get("traceback", "unit exception")
